@@ -1,7 +1,7 @@
 # C14 — prioritized files first, in order, ahead of a single landmark
 PROPS["C14"] = dict(
     props_file="Properties/C14.v",
-    harnesses=[dict(cmd="sort", mod="root", model="Model.Sort", quick=240, thorough=8000, shard=30, coq_jobs=8,
+    harnesses=[dict(cmd="sort", mod="root", model="Model.Sort", quick=240, thorough=8000, shard=60, coq_jobs=8,
                     preamble="Open Scope string_scope.",
                     require=["res.ok", "res.notfound", "res.other", "res.missed", "prio.empty", "prio.abs", "prio.dotslash",
                              "prio.dotdot", "prio.dir", "prio.link", "prio.dup", "prio.missing", "prio.root", "prio.cycle",
